@@ -37,19 +37,6 @@ def run_tlc(*a, **kw):
 PROP = "C20"
 
 # --------------------------------------------------------------------------------------------
-# optional: extra known-finding entries (same format as known_findings.json) for dry runs of
-# entries that are proposed but not yet registered.  Never set by ./check itself.
-if os.environ.get("VERIF_KNOWN_EXTRA"):
-    _orig_load_known = vlib.load_known
-
-    def _load_known_plus():
-        with open(os.environ["VERIF_KNOWN_EXTRA"]) as f:
-            return _orig_load_known() + json.load(f).get("findings", [])
-
-    vlib.load_known = _load_known_plus
-
-
-# --------------------------------------------------------------------------------------------
 # replay plumbing
 
 def merge_reports(reports):
@@ -161,7 +148,7 @@ def corpus_lines(r):
 # --------------------------------------------------------------------------------------------
 # part 1: Split.tla
 
-SPLIT_INVS = ["TypeOK", "Inv_NoLossModuloKnown", "Inv_BoundedModuloKnown", "Inv_NoEmptyChunk", "Inv_ChunkerClosedForm"]
+SPLIT_INVS = ["TypeOK", "Inv_NoLoss", "Inv_Bounded", "Inv_NoEmptyChunk", "Inv_ChunkerClosedForm"]
 STRATS = {"recursive": "c_StratRecursive", "fixed": "c_StratFixed", "code": "c_StratCode", "markdown": "c_StratMarkdown", "chunker": "c_StratChunker"}
 
 
@@ -170,31 +157,14 @@ def split_consts(strats, maxlen, alpha="c_Alpha"):
 
 
 def split_full(binary, name, consts, workers, timeout):
-    """TLC over the whole bounded case space with the property (modulo the registered findings'
-    signatures) as invariants + termination of the chunker loop; replay of EVERY emitted case."""
+    """TLC over the whole bounded case space with the property (no loss, size+overlap bound for every
+    overlap) as invariants + termination of the chunker loop; replay of EVERY emitted case."""
     cfg = make_cfg("FairSpec", consts, SPLIT_INVS, ["Prop_ChunkerVariant", "Prop_Terminates"])
     r = run_tlc("MC_Split", name + ".cfg", cfg_text=cfg, workers=workers, timeout=timeout)
     lines = corpus_lines(r)
     r.corpus = []
     rep = run_binary(binary, "split", lines, shards=8) if r.ok else merge_reports([])
     return name, r, len(lines), rep
-
-
-def split_strict(binary, strat, inv, maxlen, tracedir):
-    """The strict invariant for one strategy. TLC either proves it within the bounds or returns a
-    counterexample, which is executed on the real code."""
-    name = "Split_strict_%s_%s" % (inv.replace("Inv_", ""), strat)
-    trace = os.path.join(tracedir, name + ".json")
-    cfg = make_cfg("Spec", split_consts(STRATS[strat], maxlen), [inv], [])
-    r = run_tlc("MC_Split", name + ".cfg", cfg_text=cfg, workers=2, timeout=1800, extra=["-dumpTrace", "json", trace])
-    case = None
-    if r.violated and os.path.exists(trace):
-        with open(trace) as f:
-            st = json.load(f)["counterexample"]["state"][-1][1]
-        cs = st["cs"]
-        case = {"st": cs["st"], "sz": cs["sz"], "ov": cs["ov"], "t": "".join(cs["text"]), "o": ["".join(c) for c in st["out"]]}
-    rep = run_binary(binary, "split", [json.dumps(case)], shards=1) if case else None
-    return name, strat, inv, r, case, rep
 
 
 def part_split(binary, tier):
@@ -210,9 +180,6 @@ def part_split(binary, tier):
                                       6 if s == "code" else 4, 6000))
             for s in ("code", "markdown"):
                 jobs.append(ex.submit(split_full, binary, "Split_%s_wide_len5" % s, split_consts(STRATS[s], 5, "c_AlphaWide"), 4, 6000))
-        tracedir = vlib.scratch("c20-trace-")
-        sjobs = [ex.submit(split_strict, binary, s, inv, 4 if quick else 5, tracedir)
-                 for s in STRATS for inv in ("Inv_NoLoss", "Inv_Bounded")]
         for j in jobs:
             name, r, n, rep = j.result()
             p.tlc.append((name, r))
@@ -221,28 +188,8 @@ def part_split(binary, tier):
             if r.ok and rep.get("cases", 0) != n:
                 p.infra.append("%s: %d cases emitted but %d replayed" % (name, n, rep.get("cases", 0)))
             if r.violated:
-                p.infra.append("TLC: %s violated in %s -- a violation outside the registered signatures in the transcription itself; "
-                               "the strict configurations below reproduce it on the code:\n%s" % (r.violated, name, "\n".join(r.trace[-1:])[:1500]))
-        strict = {}
-        for j in sjobs:
-            name, strat, inv, r, case, rep = j.result()
-            if r.violated:
-                p.expected_cex.append((name, r))
-                if not case:
-                    p.infra.append("%s: counterexample could not be read" % name)
-                    continue
-                kind = {"Inv_NoLoss": "nonws_loss", "Inv_Bounded": "chunk_too_long"}[inv]
-                kinds = [g["kind"] for g in rep.get("groups", [])]
-                strict["%s/%s" % (strat, inv)] = "TLC counterexample %s size=%d overlap=%d -> reproduced on the code: %s" % (
-                    json.dumps(case["t"]), case["sz"], case["ov"], kind in kinds)
-                if kind not in kinds:
-                    p.infra.append("%s: TLC counterexample %s does not reproduce on the real code (specification error)" % (name, json.dumps(case)))
-                p.reports.append(("split", (), rep))
-            else:
-                p.tlc.append((name, r))
-                strict["%s/%s" % (strat, inv)] = "holds (%d states)" % r.distinct
-        shutil.rmtree(tracedir, ignore_errors=True)
-        p.info["strict_invariants"] = strict
+                p.infra.append("TLC: %s violated in %s (the transcription itself breaks the property; reproduce on the code, then "
+                               "fix the code or the specification):\n%s" % (r.violated, name, "\n".join(r.trace[-1:])[:1500]))
     return p
 
 
@@ -388,7 +335,7 @@ def part_compress(binary, tier):
 # --------------------------------------------------------------------------------------------
 # part 3: Adaptive.tla
 
-ADAPT_INVS = ["Inv_Depth", "Inv_ExpandAboveLimit", "Inv_CapGraph", "Inv_Budget", "Inv_BudgetTable", "Inv_Variant", "Inv_NoBetterPath", "Inv_Once"]
+ADAPT_INVS = ["Inv_Depth", "Inv_ExpandAboveLimit", "Inv_Cap", "Inv_Budget", "Inv_BudgetTable", "Inv_Variant", "Inv_NoBetterPath", "Inv_Once"]
 PROFILES = {  # mirrors of MC_Adaptive.tla
     "c_Prof3": [{"tok": [1, 2, 1], "doc": ["d1", "d1", "d2"]}, {"tok": [2, 0, 3], "doc": ["d1", "d2", ""]}],
     "c_Prof3One": [{"tok": [1, 2, 1], "doc": ["d1", "d1", "d2"]}],
@@ -452,37 +399,10 @@ def adaptive_one(binary, name, consts, workers):
     return name, r, nrec, len(lines), rep
 
 
-def adaptive_strict(binary, tracedir):
-    """Inv_Cap for the greedy strategy (expandGreedy never reads MaxExpansionNodes)."""
-    name = "Adaptive_strict_Cap_greedy"
-    consts = dict(Nodes="<- c_N3", Ghosts="<- c_NoGhost", Rels="<- c_Rels1", TargetSets="<- c_T3Deg1", SeedSeqs="<- c_Seeds3",
-                  Strategies="<- c_Greedy", Depths="{2}", Caps="{1, 2}", Budgets="{2}", EmitBudgets="{2}", Profiles="<- c_Prof3One")
-    trace = os.path.join(tracedir, name + ".json")
-    r = run_tlc("MC_Adaptive", name + ".cfg", cfg_text=make_cfg("Spec", consts, ["Inv_Cap"], []), workers=2, timeout=1800,
-                extra=["-dumpTrace", "json", trace])
-    case, rep = None, None
-    if r.violated and os.path.exists(trace):
-        with open(trace) as f:
-            st = json.load(f)["counterexample"]["state"][-1][1]
-        case = {"g": st["g"], "seeds": st["seeds"], "strat": st["strat"], "limit": st["limit"], "cap": st["cap"],
-                "fix": {"p": 1, "b": 2, "strategy": st["strat"], "cpt": 4.0, "idx_kind": 0, "seed": 1}}
-        d = vlib.scratch("c20-ameta-")
-        try:
-            mf = os.path.join(d, "meta.json")
-            with open(mf, "w") as f:
-                json.dump(adaptive_meta(consts), f)
-            rep = run_binary(binary, "adaptive", [json.dumps(case)], extra_args=("-meta", mf), shards=1)
-        finally:
-            shutil.rmtree(d, ignore_errors=True)
-    return name, r, case, rep
-
-
 def part_adaptive(binary, tier):
     p = Part("adaptive")
-    tracedir = vlib.scratch("c20-trace-")
     with cf.ThreadPoolExecutor(max_workers=3) as ex:
         jobs = [ex.submit(adaptive_one, binary, name, consts, w) for name, consts, w in adaptive_cfgs(tier)]
-        sj = ex.submit(adaptive_strict, binary, tracedir)
         for j in jobs:
             name, r, nrec, ncases, rep = j.result()
             p.tlc.append((name, r))
@@ -492,20 +412,6 @@ def part_adaptive(binary, tier):
                 p.infra.append("%s: %d cases emitted but %d replayed" % (name, ncases, rep.get("cases", 0)))
             if r.violated:
                 p.infra.append("TLC: %s violated in %s:\n%s" % (r.violated, name, "\n".join(r.trace[-1:])[:2000]))
-        name, r, case, rep = sj.result()
-        if r.violated:
-            p.expected_cex.append((name, r))
-            kinds = [g["kind"] for g in (rep or {}).get("groups", [])]
-            p.info["strict_invariants"] = {"greedy/Inv_Cap": "TLC counterexample seeds=%s cap=%s -> reproduced on the code: %s" % (
-                case and case["seeds"], case and case["cap"], "cap_ignored" in kinds)}
-            if "cap_ignored" not in kinds:
-                p.infra.append("%s: TLC counterexample does not reproduce on the real code (specification error): %s" % (name, json.dumps(case)))
-            if rep:
-                p.reports.append(("adaptive", (), rep))
-        else:
-            p.tlc.append((name, r))
-            p.info["strict_invariants"] = {"greedy/Inv_Cap": "holds (%d states)" % r.distinct}
-    shutil.rmtree(tracedir, ignore_errors=True)
     return p
 
 
@@ -610,7 +516,8 @@ def run(tier):
         "negation / connective vocabulary is the check's lexicon (the words compressor.go documents as preserved plus the usual ones of English and Italian); which words are stop words / "
         "'important' is probed from the analyzer at run time",
         "adaptive retrieval: token accounting is the implementation's own unit (sum over chunks of int(len(content)/CharsPerToken)); the separators of ContextText are not counted; "
-        "depth is graph distance from the seed set over the allowed relations; node cap = no VGetRelations call once the number of distinct fetched ids reached MaxExpansionNodes",
+        "depth is graph distance from the seed set over the allowed relations; node cap = no VGetRelations call once the number of distinct fetched ids reached MaxExpansionNodes "
+        "(every strategy; seeds themselves are always fetched)",
         "Go iterates relation maps and equal-score documents in unspecified order: the specification admits every order, the real run must match one of them",
     ]
     return chk.finish()
